@@ -6,7 +6,7 @@ props = [json.loads(l)["id"] for l in open(os.path.join(V, "properties.jsonl")) 
 checks, claimed = [], set()
 for path in sorted(glob.glob(os.path.join(V, "h", "c[0-9][0-9]", "spec.json"))):
     s = json.load(open(path))
-    if s.get("disabled"):
+    if s.get("disabled") or not s.get("ready"):
         continue
     pid = s["property"]
     claimed.add(pid)
